@@ -25,6 +25,8 @@ def param_grid(kind, S, rich):
     tb = sum(len(s) + 1 for s in S)
     if kind in FC:
         bs = [2, 3, 4, 8] if rich else [2, 3]
+        if len(S) >= 100:
+            bs = [16] + bs          # realistic bucket sizes on the larger inputs
         return [P(bucket=b) for b in bs]
     if kind in HASH:
         return [P(overhead=o) for o in ([0, 25, 100] if rich else [25])]
@@ -92,6 +94,8 @@ def shape_sets(rng, thorough):
     sh["bucketmult7"] = rnd_set(rng, 7, 1, 6, b"", b"abcd")
     sh["repeats"] = sorted([b"abababab", b"abab", b"bababa", b"aaaaaaaa", b"aaaa", b"abcabcabc", b"bcbcbc"])
     sh["skewed"] = rnd_set(rng, 25, 2, 12, b"", b"aaaaaaaaaaaaaaaabbbbc")
+    # dense: consecutive strings differ in one character (decimal numerals), enough of them for big buckets
+    sh["numerals600"] = sorted(str(i).encode() for i in range(600))
     if thorough:
         sh["rand200"] = rnd_set(rng, 200, 1, 25)
         sh["long400"] = rnd_set(rng, 15, 300, 400, b"", b"xyz")
@@ -99,6 +103,60 @@ def shape_sets(rng, thorough):
         sh["rand1000"] = rnd_set(rng, 1000, 2, 12, b"", b"abcdefgh")
         sh["fullbytes"] = rnd_set(rng, 120, 1, 6)
     return sh
+
+
+# ------------------------------------------------------------------------------ capacity witness
+# Input that puts `used` exactly where Capacity.tla's counterexample needs it with the library's own
+# constant (MEMALLOC * bucketsize): the plain front-coding layout arithmetic is simulated to choose string
+# lengths (this is input generation; no expected answers are computed).
+def _lcp(a,b):
+    n=0
+    while n<len(a) and n<len(b) and a[n]==b[n]: n+=1
+    return n
+def _vb(v): return 1 if v<128 else 2
+def _simulate(S,R,bucket):
+    used=0; prev=None; worst=None
+    for i,s in enumerate(S):
+        L=len(s)
+        while used+2*L>R: R*=2
+        if i%bucket==0: w=L+1
+        else:
+            l=_lcp(prev,s); w=_vb(l)+L-l+1
+        used+=w
+        if used>R: return ("overflow",i,used,R)
+        prev=s
+    return ("ok",used,R)
+def _enc(i):
+    d="abcdefghijklmnopqrst"
+    return bytes([ord(d[(i//400)%20]),ord(d[(i//20)%20]),ord(d[i%20])])
+def pfc_capacity_witness(R=65536,bucket=2):
+    # body: pairs of 12-byte strings; tail: 2-byte strings "xa".."xz" (3 bytes each), then "y" (header) and "z" (internal)
+    for pad in range(0,40):
+        for ntail in range(2,24):
+            S=[];i=0;used=0;prev=None
+            def add(s):
+                nonlocal used,prev
+                k=len(S); L=len(s)
+                if used+2*L>R: return False
+                w=L+1 if k%bucket==0 else _vb(_lcp(prev,s))+L-_lcp(prev,s)+1
+                used+=w; S.append(s); prev=s; return True
+            ok=True
+            first=True
+            while R-used>3*ntail+4+30:
+                L=12+(pad if first else 0); first=False
+                if not add(_enc(i)+b"a"*(L-3)): ok=False;break
+                i+=1
+            if not ok: continue
+            # fill with 12-len until close
+            while R-used-(3*ntail+4)>=13 and add(_enc(i)+b"a"*9): i+=1
+            for t in range(ntail):
+                if not add(b"x"+bytes([97+t])): ok=False;break
+            if not ok: continue
+            if used!=R-4 or len(S)%bucket!=0: continue
+            if not add(b"y"): continue
+            S.append(b"z")
+            return S
+    return None
 
 
 # ------------------------------------------------------------------------------ query material
